@@ -7,7 +7,7 @@ import json
 import os
 import sys
 
-from .. import app, common, crashpoints, inject, pool, reclog, spaces, sweep
+from .. import app, common, crashpoints, inject, pool, reclog, spaces, sweep, tlcgraph
 
 PROP = "C15"
 CHUNK = 60
@@ -367,10 +367,13 @@ def _crash(text, res):
         images.add(common.sha(repr(sorted(snap.items())))[:16])
         if cur is None or cur not in accepted:
             bad.append((j, what, None if cur is None else cur.decode("utf-8", "replace")))
+    # conformance with the TLA+ model of the write-back (models/WriteBack.tla): every write-back
+    # episode of this history must be a path of the state graph TLC dumps for the atomic protocol
+    conf = _conformance(steps, orig)
     res["feeds"] = len(steps)
     res["states"] = list(images)
     res["nontrivial"] = any(w.startswith(("opened t.md", "before replace", "before rename")) for w, _s in steps)
-    res["count"] = {"crash_points": len(steps)}
+    res["count"] = {"crash_points": len(steps), "write_back_episodes_validated_against_tla_model": conf["validated"], "tla_model_unavailable": conf["unavailable"]}
     if r.rc in ("timeout", "exception") or r.err.strip():
         fail = ("crash:fix-run-error", r.err[-300:])
     elif bad:
@@ -379,11 +382,54 @@ def _crash(text, res):
             "crash:file-truncated-or-partial-at-a-crash-point",
             {"crash_points": len(steps), "bad_points": len(bad), "first_bad_step": j, "step": what, "file_content_then": cur, "original": text, "fixed": final.decode("utf-8", "replace")},
         )
+    elif conf["error"]:
+        fail = ("crash:write-back-history-is-not-a-behaviour-of-the-atomic-protocol-model", conf["error"])
     elif sb is not None and [e for e in steps[-1][1] if e.startswith("t/")]:
         fail = ("crash:temp-files-left-after-completion", [e for e in steps[-1][1] if e.startswith("t/")])
     res["fail"] = fail
     res["outcome"] = fail[0] if fail else f"crash:{len(steps)}-points-ok"
     return res
+
+
+def _conformance(steps, orig):
+    """split the I/O history into write-back episodes and validate each against the model"""
+    out = {"validated": 0, "unavailable": 0, "error": None}
+    episodes = []
+    cur = None
+    before = orig
+    for what, snap in steps:
+        tgt = snap.get("w/t.md")
+        if what.startswith("before open(.pymarkdown-"):
+            cur = {"old": tgt, "writes": 0, "trace": [("old", -1, "start")], "closed": False}
+        elif cur is not None and what.startswith("opened .pymarkdown-"):
+            cur["trace"].append(("old" if tgt == cur["old"] else "other", 0, "copying"))
+        elif cur is not None and what.startswith("write .pymarkdown-"):
+            cur["writes"] += 1
+            cur["trace"].append(("old" if tgt == cur["old"] else "other", cur["writes"], "copying"))
+        elif cur is not None and what.startswith("close .pymarkdown-"):
+            cur["closed"] = True
+            cur["trace"].append(("old" if tgt == cur["old"] else "other", cur["writes"], "staged"))
+        elif cur is not None and what.startswith("after replace(.pymarkdown-"):
+            cur["new"] = tgt
+            cur["trace"].append(("new", -1, "done"))
+            episodes.append(cur)
+            cur = None
+        elif what.startswith("opened t.md w"):
+            out["error"] = "the user's file is opened for writing directly: " + what
+            return out
+    if cur is not None:
+        out["error"] = "a write-back episode does not end with the rename over the target"
+        return out
+    for ep in episodes:
+        msg = tlcgraph.validate(ep["trace"], ep["writes"])
+        if msg == "tlc-unavailable":
+            out["unavailable"] += 1
+        elif msg:
+            out["error"] = msg
+            return out
+        else:
+            out["validated"] += 1
+    return out
 
 
 def classify(key, sig, detail):
